@@ -509,82 +509,121 @@ def check_jsonld_reader(cx: Cx, ob: Ob) -> None:
         ob.undecide("from_jsonld loop target not (key, value)")
         return
     k, v = lp.a[1]
+    import itertools
+
+    from ..rules import path_atoms, formula_eval
+
+    isinst = lambda *ts: ("call", ("builtin", "isinstance"), (v, ts[0] if len(ts) == 1 else ("tuple", tuple(ts))), ())  # noqa: E731
+    STR, DICT = ("builtin", "str"), ("builtin", "dict")
+    GET = ("call", ("attr", v, "get"), (("const", "@prefix"),), ())
+    ITEM = ("item", v, ("const", "@prefix"))
+    atoms = path_atoms(lp.body)
+
+    def meaning(a):
+        """How an atom is decided by a world (key non-empty?, key starts with '@'?, kind of value, '@prefix' is True?)."""
+        if a == k:
+            return lambda w: w["K"]
+        if a == ("call", ("attr", k, "startswith"), (("const", "@"),), ()):
+            return lambda w: w["A"]
+        if a == ("cmp", "==", k, ("const", "")) or a == ("cmp", "==", ("const", ""), k):
+            return lambda w: not w["K"]
+        if op(a) == "call" and a[1] == ("builtin", "isinstance") and len(a[2]) == 2 and a[2][0] == v and not a[3]:
+            ts = a[2][1][1] if op(a[2][1]) == "tuple" else (a[2][1],)
+            if all(t in (STR, DICT) for t in ts):
+                names = {"str" if t == STR else "dict" for t in ts}
+                return lambda w: w["T"] in names
+        if op(a) == "cmp" and a[1] in ("is", "==") and is_const(a[3], True) and a[2] in (GET, ITEM):
+            return lambda w: w["P"]
+        return None
+
+    sem = {a: meaning(a) for a in atoms}
+    free = [a for a in atoms if sem[a] is None]
+    for a in free:
+        if a in (GET, ITEM):
+            ob.violate(m.qualname, where(m, lp.line), "from_jsonld tests '@prefix' by truthiness: terms with \"@prefix\": \"false\" or other truthy non-True values are taken as prefixes", detail="prefix-truthiness")
+            sem[a] = lambda w: w["P"]
+    free = [a for a in atoms if sem[a] is None]
+    if len(free) > 6:
+        ob.undecide("from_jsonld: too many unrecognised tests in the term loop")
+        return
     n_store = 0
     seen_str = seen_dict = False
+    reported = set()
+
+    def report(detail, line, msg, witness=None):
+        if (detail, line) not in reported:
+            reported.add((detail, line))
+            ob.violate(m.qualname, where(m, line), msg, witness=witness, detail=detail)
+
     for p in lp.body:
-        stores = [ev for ev in p.events if ev.kind == "store" and op(ev.a) == "item"]
-        guards = [(g.a, g.b) for g in p.events if g.kind == "guard"]
-        for ev in stores:
-            n_store += 1
-            ob.site(f"{where(m, ev.line)} {m.qualname}", f"store {show(ev.a[2])} := {show(ev.b)[:30]}")
-            if ev.a[2] != k:
-                ob.violate(m.qualname, where(m, ev.line), "from_jsonld stores under something other than the term key", detail="store-key")
-            # no further condition on the key or value may stand between a well-formed term and the store
-            allowed = {
-                (k, True),
-                (("call", ("attr", k, "startswith"), (("const", "@"),), ()), False),
-            }
-            for g, pol in guards:
-                if (g, pol) in allowed:
+        for ev in p.events:
+            if ev.kind == "store" and op(ev.a) == "item":
+                n_store += 1
+                ob.site(f"{where(m, ev.line)} {m.qualname}", f"store {show(ev.a[2])} := {show(ev.b)[:30]}")
+                if ev.a[2] != k:
+                    report("store-key", ev.line, "from_jsonld stores under something other than the term key")
+                if ev.b == v:
+                    seen_str = True
+                elif ev.b == ("item", v, ("const", "@id")):
+                    seen_dict = True
+                else:
+                    report("store-value", ev.line, f"from_jsonld stores `{show(ev.b)[:40]}` for a term: neither the string value nor its '@id'")
+    for K, A, T, P in itertools.product((True, False), (True, False), ("str", "dict", "other"), (True, False)):
+        if T != "dict" and P:
+            continue  # '@prefix' is a property of dict values only
+        w = {"K": K, "A": A, "T": T, "P": P}
+        want = "value" if (K and not A and T == "str") else "id" if (K and not A and T == "dict" and P) else None
+        for fv in itertools.product((True, False), repeat=len(free)):
+            asg = {a: sem[a](w) for a in atoms if sem[a] is not None}
+            asg.update(dict(zip(free, fv)))
+            for p in lp.body:
+                gs = [g for g in p.events if g.kind == "guard"]
+                if not all(formula_eval(g.a, asg) == g.b for g in gs):
                     continue
-                if any(x == v for x in subterms(g)) and not any(x == k for x in subterms(g)):
-                    continue  # tests on the value are judged below
-                if any(x == k for x in subterms(g)):
-                    ob.violate(
-                        m.qualname,
-                        where(m, ev.line),
-                        f"from_jsonld keeps a term only if `{'' if pol else 'not '}{show(g)[:50]}`: well-formed prefixes (non-empty, not starting with '@') are silently dropped, so contexts written by write_jsonld_context do not read back",
-                        witness="a prefix such as 'a:b' or 'x-y' is written as a key and skipped on reading",
-                        detail="extra-key-filter",
-                    )
-            if (k, True) not in guards:
-                ob.violate(m.qualname, where(m, ev.line), "from_jsonld keeps a term without having excluded the empty key", detail="empty-key")
-            if (("call", ("attr", k, "startswith"), (("const", "@"),), ()), False) not in guards:
-                ob.violate(m.qualname, where(m, ev.line), "from_jsonld keeps a term without having excluded keys starting with '@' (JSON-LD keywords such as @vocab, @base)", detail="at-key")
-            isstr = ("call", ("builtin", "isinstance"), (v, ("builtin", "str")), ())
-            isdict = ("call", ("builtin", "isinstance"), (v, ("builtin", "dict")), ())
-            okv_str = {isstr, isdict}
-            if ev.b == v or ev.b == ("item", v, ("const", "@id")):
-                for g, pol in guards:
-                    if not any(x == v for x in subterms(g)) or any(x == k for x in subterms(g)):
-                        continue
-                    parts_g = g[1] if op(g) in ("and", "or") else (g,)
-                    for c in parts_g:
-                        if c in okv_str:
-                            continue
-                        if ev.b != v and (c == ("call", ("attr", v, "get"), (("const", "@prefix"),), ()) or c == ("item", v, ("const", "@prefix")) or (op(c) == "cmp" and any(is_const(x, "@prefix") or is_const(x, "@id") for x in subterms(c)))):
-                            continue
-                        if any(x == v for x in subterms(c)):
-                            ob.violate(
-                                m.qualname,
-                                where(m, ev.line),
-                                f"from_jsonld keeps a term only if its value satisfies `{'' if pol else 'not '}{show(c)[:50]}`: the property takes every string term and every '@prefix': true definition",
-                                witness="{'@context': {'at': '@example/'}}: a string-valued term that is dropped",
-                                detail="extra-value-filter",
-                            )
-            if ev.b == v:
-                seen_str = True
-                if (isstr, True) not in guards:
-                    ob.violate(m.qualname, where(m, ev.line), "from_jsonld keeps a raw value that has not been checked to be a str", detail="str-guard")
-            elif ev.b == ("item", v, ("const", "@id")):
-                seen_dict = True
-                good = False
-                for g, pol in guards:
-                    if pol is not True:
-                        continue
-                    parts = g[1] if op(g) == "and" else (g,)
-                    for c in parts:
-                        if op(c) == "cmp" and c[1] in ("is", "==") and is_const(c[3], True) and c[2] == ("call", ("attr", v, "get"), (("const", "@prefix"),), ()):
-                            good = True
-                        if c in (("call", ("attr", v, "get"), (("const", "@prefix"),), ()), ("item", v, ("const", "@prefix"))):
-                            ob.violate(m.qualname, where(m, ev.line), "from_jsonld tests '@prefix' by truthiness: terms with \"@prefix\": \"false\" or other truthy non-True values are taken as prefixes", detail="prefix-truthiness")
-                            good = True
-                if not good:
-                    ob.violate(m.qualname, where(m, ev.line), "from_jsonld takes an expanded term definition without requiring '@prefix' to be true", detail="prefix-guard")
-                if not any((g == isdict or (op(g) == "and" and isdict in g[1])) and pol for g, pol in guards):
-                    ob.violate(m.qualname, where(m, ev.line), "from_jsonld subscripts a value that has not been checked to be a dict", detail="dict-guard")
-            else:
-                ob.violate(m.qualname, where(m, ev.line), f"from_jsonld stores `{show(ev.b)[:40]}` for a term: neither the string value nor its '@id'", detail="store-value")
+                line = gs[-1].line if gs else lp.line
+                stores = [ev for ev in p.events if ev.kind == "store" and op(ev.a) == "item"]
+                got = None
+                for ev in stores:
+                    got = "value" if ev.b == v else "id" if ev.b == ("item", v, ("const", "@id")) else "other"
+                # a test of '@prefix' on something that is not a dict raises
+                if T != "dict" and any(any(x in (GET, ITEM) for x in subterms(g.a)) for g in gs):
+                    report("dict-guard", line, "from_jsonld subscripts a value that has not been checked to be a dict")
+                    continue
+                if got == want or got == "other":
+                    continue
+                sline = stores[-1].line if stores else line
+                if want is None:
+                    if not K:
+                        report("empty-key", sline, "from_jsonld keeps a term without having excluded the empty key")
+                    elif A:
+                        report("at-key", sline, "from_jsonld keeps a term without having excluded keys starting with '@' (JSON-LD keywords such as @vocab, @base)")
+                    elif got == "value":
+                        report("str-guard", sline, "from_jsonld keeps a raw value that has not been checked to be a str")
+                    elif T != "dict":
+                        report("dict-guard", sline, "from_jsonld subscripts a value that has not been checked to be a dict")
+                    else:
+                        report("prefix-guard", sline, "from_jsonld takes an expanded term definition without requiring '@prefix' to be true")
+                elif got is None:
+                    blame = [a for a in free if any(x == k for x in subterms(a))]
+                    if blame:
+                        report(
+                            "extra-key-filter",
+                            line,
+                            f"from_jsonld keeps a term only if `{show(blame[0])[:50]}` turns out a certain way: well-formed prefixes (non-empty, not starting with '@') are silently dropped, so contexts written by write_jsonld_context do not read back",
+                            witness="a prefix such as 'a:b' or 'x-y' is written as a key and skipped on reading",
+                        )
+                    else:
+                        blame_v = [a for a in free if any(x == v for x in subterms(a))]
+                        report(
+                            "extra-value-filter",
+                            line,
+                            f"from_jsonld drops a {'string term' if want == 'value' else 'term definition with @prefix true'}" + (f" depending on `{show(blame_v[0])[:50]}`" if blame_v else "") + ": the property takes every string term and every '@prefix': true definition",
+                            witness="{'@context': {'at': '@example/'}}: a string-valued term that is dropped",
+                        )
+                elif want == "value":
+                    report("str-guard", sline, "from_jsonld takes the '@id' of a plain string term")
+                else:
+                    report("str-guard", sline, "from_jsonld keeps a raw value that has not been checked to be a str")
     # nothing rewrites the collected terms afterwards
     targets = {ev.a[1] for p in lp.body for ev in p.events if ev.kind == "store" and op(ev.a) == "item"}
     for ev, ctx in s.walk():
